@@ -187,9 +187,133 @@ type Table struct {
 
 type fakeImporter struct{ pkgs map[string]*types.Package }
 
+// Stubs of the two synchronisation packages: with them `v, ok := s.actorContexts.Load(k)` has type any (so that
+// `v.(*Context).field` is typed) and atomic.Pointer[T].Load() has type *T. Every other import is an EMPTY package.
+var stubs = map[string]string{
+	"sync": `package sync
+type Locker interface { Lock(); Unlock() }
+type Mutex struct{ _ int }
+func (m *Mutex) Lock()
+func (m *Mutex) Unlock()
+func (m *Mutex) TryLock() bool
+type RWMutex struct{ _ int }
+func (m *RWMutex) Lock()
+func (m *RWMutex) Unlock()
+func (m *RWMutex) RLock()
+func (m *RWMutex) RUnlock()
+func (m *RWMutex) TryLock() bool
+func (m *RWMutex) TryRLock() bool
+func (m *RWMutex) RLocker() Locker
+type Map struct{ _ int }
+func (m *Map) Load(key any) (value any, ok bool)
+func (m *Map) Store(key, value any)
+func (m *Map) LoadOrStore(key, value any) (actual any, loaded bool)
+func (m *Map) LoadAndDelete(key any) (value any, loaded bool)
+func (m *Map) Delete(key any)
+func (m *Map) Swap(key, value any) (previous any, loaded bool)
+func (m *Map) CompareAndSwap(key, old, new any) (swapped bool)
+func (m *Map) CompareAndDelete(key, old any) (deleted bool)
+func (m *Map) Range(f func(key, value any) bool)
+func (m *Map) Clear()
+type WaitGroup struct{ _ int }
+func (w *WaitGroup) Add(delta int)
+func (w *WaitGroup) Done()
+func (w *WaitGroup) Wait()
+func (w *WaitGroup) Go(f func())
+type Once struct{ _ int }
+func (o *Once) Do(f func())
+type Pool struct{ New func() any }
+func (p *Pool) Get() any
+func (p *Pool) Put(x any)
+type Cond struct{ L Locker }
+func NewCond(l Locker) *Cond
+func (c *Cond) Wait()
+func (c *Cond) Signal()
+func (c *Cond) Broadcast()
+func OnceFunc(f func()) func()
+`,
+	"sync/atomic": `package atomic
+import "unsafe"
+type Bool struct{ _ int }
+func (x *Bool) Load() bool
+func (x *Bool) Store(val bool)
+func (x *Bool) Swap(new bool) (old bool)
+func (x *Bool) CompareAndSwap(old, new bool) (swapped bool)
+type Int32 struct{ _ int }
+func (x *Int32) Load() int32
+func (x *Int32) Store(val int32)
+func (x *Int32) Swap(new int32) (old int32)
+func (x *Int32) CompareAndSwap(old, new int32) (swapped bool)
+func (x *Int32) Add(delta int32) (new int32)
+type Int64 struct{ _ int }
+func (x *Int64) Load() int64
+func (x *Int64) Store(val int64)
+func (x *Int64) Swap(new int64) (old int64)
+func (x *Int64) CompareAndSwap(old, new int64) (swapped bool)
+func (x *Int64) Add(delta int64) (new int64)
+type Uint32 struct{ _ int }
+func (x *Uint32) Load() uint32
+func (x *Uint32) Store(val uint32)
+func (x *Uint32) Swap(new uint32) (old uint32)
+func (x *Uint32) CompareAndSwap(old, new uint32) (swapped bool)
+func (x *Uint32) Add(delta uint32) (new uint32)
+type Uint64 struct{ _ int }
+func (x *Uint64) Load() uint64
+func (x *Uint64) Store(val uint64)
+func (x *Uint64) Swap(new uint64) (old uint64)
+func (x *Uint64) CompareAndSwap(old, new uint64) (swapped bool)
+func (x *Uint64) Add(delta uint64) (new uint64)
+type Pointer[T any] struct{ _ int }
+func (x *Pointer[T]) Load() *T
+func (x *Pointer[T]) Store(val *T)
+func (x *Pointer[T]) Swap(new *T) (old *T)
+func (x *Pointer[T]) CompareAndSwap(old, new *T) (swapped bool)
+type Value struct{ _ int }
+func (v *Value) Load() (val any)
+func (v *Value) Store(val any)
+func (v *Value) Swap(new any) (old any)
+func (v *Value) CompareAndSwap(old, new any) (swapped bool)
+func LoadInt32(addr *int32) (val int32)
+func StoreInt32(addr *int32, val int32)
+func SwapInt32(addr *int32, new int32) (old int32)
+func AddInt32(addr *int32, delta int32) (new int32)
+func CompareAndSwapInt32(addr *int32, old, new int32) (swapped bool)
+func LoadInt64(addr *int64) (val int64)
+func StoreInt64(addr *int64, val int64)
+func SwapInt64(addr *int64, new int64) (old int64)
+func AddInt64(addr *int64, delta int64) (new int64)
+func CompareAndSwapInt64(addr *int64, old, new int64) (swapped bool)
+func LoadUint32(addr *uint32) (val uint32)
+func StoreUint32(addr *uint32, val uint32)
+func SwapUint32(addr *uint32, new uint32) (old uint32)
+func AddUint32(addr *uint32, delta uint32) (new uint32)
+func CompareAndSwapUint32(addr *uint32, old, new uint32) (swapped bool)
+func LoadUint64(addr *uint64) (val uint64)
+func StoreUint64(addr *uint64, val uint64)
+func SwapUint64(addr *uint64, new uint64) (old uint64)
+func AddUint64(addr *uint64, delta uint64) (new uint64)
+func CompareAndSwapUint64(addr *uint64, old, new uint64) (swapped bool)
+func LoadPointer(addr *unsafe.Pointer) (val unsafe.Pointer)
+func StorePointer(addr *unsafe.Pointer, val unsafe.Pointer)
+`,
+}
+
 func (f fakeImporter) Import(path string) (*types.Package, error) {
 	if p, ok := f.pkgs[path]; ok {
 		return p, nil
+	}
+	if path == "unsafe" {
+		return types.Unsafe, nil
+	}
+	if src, ok := stubs[path]; ok {
+		fset := token.NewFileSet()
+		if file, err := parser.ParseFile(fset, path+"/stub.go", src, 0); err == nil {
+			conf := types.Config{Importer: f, Error: func(error) {}}
+			if p, _ := conf.Check(path, fset, []*ast.File{file}, nil); p != nil {
+				f.pkgs[path] = p
+				return p, nil
+			}
+		}
 	}
 	name := path
 	if i := strings.LastIndex(path, "/"); i >= 0 {
